@@ -21,7 +21,7 @@ theorem aux_vote_same {val : Val} {voters : List Id} {n : Nat} {s : Spec.State} 
       intro hto
       exact absurd hto hfrom
   obtain ⟨_, ⟨_, _, rfl⟩ | ⟨_, rfl⟩⟩ := step_vote_refine val fuel m r r' e ht hterm hinv.wf hinv.unc h
-  · refine ⟨⟨(key false).matchLe, (key false).self, (key false).outFrom⟩, Nat.le_refl _, fun _ hl => ⟨hl, Nat.le_refl _⟩⟩
-  · exact ⟨key true, Nat.le_refl _, fun _ hl => ⟨hl, Nat.le_refl _⟩⟩
+  · refine ⟨⟨(key false).matchLe, (key false).self, (key false).outFrom⟩, Nat.le_refl _, fun _ hl => ⟨hl, Nat.le_refl _⟩, fun _ hf => hf⟩
+  · exact ⟨key true, Nat.le_refl _, fun _ hl => ⟨hl, Nat.le_refl _⟩, fun _ hf => hf⟩
 
 end RaftVerif.Sim
